@@ -34,7 +34,7 @@ LEVEL_NOTE = ('Trusted: engine/xp, the structure predicates in this file, networ
 RULE = ('cases = graph specifications of the box (3 graph types, every construction and modifier, '
         'argument tuples inside and just outside the documented range, save in every format); per '
         'case every sequence of random answers (within the stated reduction) is executed; '
-        'evaluations = executions on the implementation; a case is non-trivial when the '
+        'evaluations = cases (one complete exploration each; executions are reported as traces_validated_against_impl); a case is non-trivial when the '
         'specification is accepted in at least one execution')
 ASSUMPTIONS = [
     'small scope: at most 4 (5) vertices per side/order, numeric tokens from a fixed alphabet',
@@ -46,6 +46,12 @@ VACUITY = {'executions': 3000, 'outcome:graph': 2000, 'outcome:refused': 100,
            'cases_with_many_outcomes': 30}
 
 TMP = None
+
+
+def coverage_extra(tier, stats, outcomes):
+    return {'exhaustive_note': "cnfgen's own samplers: every sequence of random answers up to the horizon (state hashing); networkx samplers and a few heavy 'regular' cases: every execution with at most max_dev answers off the default schedule(s); executions that reached the horizon are counted in stats.horizon",
+            'deviation_bounded_cases': int(stats.get('cases_deviation_bounded', 0)),
+            'executions_on_implementation': int(stats.get('executions', 0))}
 
 
 def preload():
